@@ -103,10 +103,26 @@ pub fn gen_ex(rng: &mut Rng, nv: usize, depth: usize, consts: bool, xor: bool) -
     if depth >= 2 && rng.chance(1, 6) {
         let left = rng.coin();
         let mut acc = gen_ex(rng, nv, depth.saturating_sub(2), consts, xor);
-        for _ in 0..rng.range(2, 5) {
-            let other = Box::new(gen_ex(rng, nv, depth.saturating_sub(2), consts, xor));
+        // mixed and/or chains, or a chain of ONE connective (and / or / iff / xor: what a flattening
+        // compiler treats as one n-ary node), sometimes with an operand repeated next to itself
+        let uniform = rng.below(6); // 0,1: mixed; 2: and; 3: or; 4: iff; 5: xor
+        let mut prev: Option<Ex> = None;
+        for _ in 0..rng.range(2, 6) {
+            let o = match &prev {
+                Some(p) if rng.chance(1, 4) => p.clone(),
+                _ => gen_ex(rng, nv, depth.saturating_sub(2), consts, xor),
+            };
+            prev = Some(o.clone());
+            let other = Box::new(o);
             let (l, r) = if left { (Box::new(acc), other) } else { (other, Box::new(acc)) };
-            acc = if rng.coin() { Ex::A(l, r) } else { Ex::O(l, r) };
+            acc = match uniform {
+                2 => Ex::A(l, r),
+                3 => Ex::O(l, r),
+                4 => Ex::I(l, r),
+                5 if xor => Ex::X(l, r),
+                5 => Ex::I(l, r),
+                _ => if rng.coin() { Ex::A(l, r) } else { Ex::O(l, r) },
+            };
         }
         return acc;
     }
